@@ -97,7 +97,13 @@ func ruleR27R28(c *Ctx) {
 		}
 		// ---- R28
 		yv, _ := info.Defs[u.Type.Params.List[0].Names[0]].(*types.Var)
-		g := c.m.cfgOf(u)
+		visitors := c.yieldVisitors(u, yv)
+		c.r28Stop(u, yv, props, func(call *ast.CallExpr) bool { return visitors[call] != nil })
+		for _, vs := range visitors {
+			c.r28Visitor(u, yv, vs, props)
+		}
+		// yield called from a nested closure (a recursive walk): the stop discipline then depends on how
+		// every caller of that closure treats its result, which this rule does not follow
 		isYieldCall := func(n ast.Node) *ast.CallExpr {
 			call, ok := n.(*ast.CallExpr)
 			if ok && identVar(info, call.Fun) == yv {
@@ -105,183 +111,15 @@ func ruleR27R28(c *Ctx) {
 			}
 			return nil
 		}
-		hasYield := func(b *cfg.Block) bool {
-			found := false
-			for _, n := range b.Nodes {
-				ast.Inspect(n, func(x ast.Node) bool {
-					if _, isLit := x.(*ast.FuncLit); isLit {
-						return false
-					}
-					if isYieldCall(x) != nil {
-						found = true
-					}
-					return true
-				})
-			}
-			return found
-		}
-		// every yield call must be the atom of a guard
-		guarded := map[*ast.CallExpr]bool{}
-		// a yield call inside a larger condition (`left == 0 || !yield(k, v)`): with yield = false
-		// the condition may still have a definite value, which names the edge taken
-		for _, b := range g.Blocks {
-			if !b.Live || len(b.Succs) != 2 {
-				continue
-			}
-			cond := condOf(info, b)
-			if cond == nil {
-				continue
-			}
-			var ycall *ast.CallExpr
-			ast.Inspect(cond, func(z ast.Node) bool {
-				if call := isYieldCall(z); call != nil {
-					ycall = call
-				}
-				return true
-			})
-			if ycall == nil || isYieldCall(ast.Unparen(c.m.throughLocals(u, cond))) != nil {
-				continue // the plain form is handled below
-			}
-			if be, ok := ast.Unparen(cond).(*ast.UnaryExpr); ok && be.Op == token.NOT && isYieldCall(ast.Unparen(be.X)) != nil {
-				continue
-			}
-			// three-valued evaluation with yield() = false
-			var eval func(e ast.Expr) int // 1 true, 0 false, -1 unknown
-			eval = func(e ast.Expr) int {
-				e = ast.Unparen(e)
-				if isYieldCall(e) == ycall {
-					return 0
-				}
-				switch x := e.(type) {
-				case *ast.UnaryExpr:
-					if x.Op == token.NOT {
-						switch eval(x.X) {
-						case 1:
-							return 0
-						case 0:
-							return 1
-						}
-					}
-				case *ast.BinaryExpr:
-					l, r := eval(x.X), eval(x.Y)
-					switch x.Op {
-					case token.LOR:
-						if l == 1 || r == 1 {
-							return 1
-						}
-						if l == 0 && r == 0 {
-							return 0
-						}
-					case token.LAND:
-						if l == 0 || r == 0 {
-							return 0
-						}
-						if l == 1 && r == 1 {
-							return 1
-						}
-					}
-				}
-				return -1
-			}
-			v := eval(cond)
-			if v == -1 {
-				continue
-			}
-			succ := 0
-			if v == 0 {
-				succ = 1
-			}
-			guarded[ycall] = true
-			key := fmt.Sprintf("%s stop after yield returned false", u.Name)
-			bad := false
-			for rb := range reachable(b.Succs[succ]) {
-				if hasYield(rb) {
-					bad = true
-				}
-			}
-			if bad {
-				c.r.bad("R28", key, c.m.pos(ycall.Pos()), "a yield call is reachable after this yield call returned false", props...)
-			} else {
-				c.r.ok("R28", key, c.m.pos(ycall.Pos()), "with yield = false the enclosing condition is decided and its edge reaches the function exit without another yield call", props...)
-			}
-		}
-		for _, gd := range guardsOf(info, g) {
-			call := isYieldCall(ast.Unparen(c.m.throughLocals(u, gd.atom.e)))
-			if call == nil || gd.atom.val {
-				continue
-			}
-			// edge (b,succ) is taken when yield returned false
-			guarded[call] = true
-			key := fmt.Sprintf("%s stop after yield returned false", u.Name)
-			bad := false
-			for b := range reachable(gd.b.Succs[gd.succ]) {
-				if hasYield(b) {
-					bad = true
-				}
-			}
-			if bad {
-				c.r.bad("R28", key, c.m.pos(call.Pos()), "a yield call is reachable after this yield call returned false", props...)
-			} else {
-				c.r.ok("R28", key, c.m.pos(call.Pos()), "the false outcome reaches the function exit without another yield call", props...)
-			}
-		}
-		for _, b := range g.Blocks {
-			if !b.Live {
-				continue
-			}
-			for _, n := range b.Nodes {
-				ast.Inspect(n, func(x ast.Node) bool {
-					if _, isLit := x.(*ast.FuncLit); isLit {
-						return false
-					}
-					if call := isYieldCall(x); call != nil && !guarded[call] {
-						// an unused result is harmless when nothing can call yield again afterwards
-						// (the last action of the pass)
-						again := false
-						after := false
-						for _, later := range b.Nodes {
-							if later == n {
-								after = true
-								continue
-							}
-							if after {
-								ast.Inspect(later, func(z ast.Node) bool {
-									if isYieldCall(z) != nil {
-										again = true
-									}
-									return true
-								})
-							}
-						}
-						for _, sc := range b.Succs {
-							for rb := range reachable(sc) {
-								if hasYield(rb) {
-									again = true
-								}
-							}
-						}
-						key := fmt.Sprintf("%s yield result unused", u.Name)
-						if again {
-							c.r.bad("R28", key, c.m.pos(call.Pos()), "the result of yield does not decide a branch: the sequence keeps calling back after the consumer stopped", props...)
-						} else {
-							c.r.ok("R28", key, c.m.pos(call.Pos()), "no yield call is reachable after this one: the pass ends whatever the consumer answered", props...)
-						}
-					}
-					if d, ok := x.(*ast.DeferStmt); ok {
-						if isYieldCall(d.Call) != nil {
-							c.r.bad("R28", fmt.Sprintf("%s deferred yield", u.Name), c.m.pos(d.Pos()), "yield is called from a deferred function", props...)
-						}
-					}
-					return true
-				})
-			}
-		}
-		// yield called from a nested closure (a recursive walk): the stop discipline then depends on how
-		// every caller of that closure treats its result, which this rule does not follow
 		ast.Inspect(u.Body, func(x ast.Node) bool {
 			lit, ok := x.(*ast.FuncLit)
 			if !ok {
 				return true
+			}
+			for _, vs := range visitors {
+				if vs.lit == lit {
+					return false
+				}
 			}
 			ast.Inspect(lit.Body, func(z ast.Node) bool {
 				if call := isYieldCall(z); call != nil {
@@ -711,5 +549,310 @@ func ruleR38(c *Ctx) {
 	}
 	if n == 0 {
 		c.r.undecided("R38", "bounded sequences found", "tree.go", "no sequence closure capturing an integer bound was found (TopK/BottomK)", "C05")
+	}
+}
+
+// r28Stop: the stop discipline of one function with respect to one callback variable yv (the yield
+// of a sequence closure, or the visitor parameter of a walker): after a call of yv returned false
+// no further call of yv – nor any call for which asYield holds – is reachable.
+func (c *Ctx) r28Stop(u *FuncUnit, yv *types.Var, props []string, asYield func(*ast.CallExpr) bool) {
+	info := c.m.Info
+	g := c.m.cfgOf(u)
+	isYieldCall := func(n ast.Node) *ast.CallExpr {
+		call, ok := n.(*ast.CallExpr)
+		if ok && (identVar(info, call.Fun) == yv || (asYield != nil && asYield(call))) {
+			return call
+		}
+		return nil
+	}
+	hasYield := func(b *cfg.Block) bool {
+		found := false
+		for _, n := range b.Nodes {
+			ast.Inspect(n, func(x ast.Node) bool {
+				if _, isLit := x.(*ast.FuncLit); isLit {
+					return false
+				}
+				if isYieldCall(x) != nil {
+					found = true
+				}
+				return true
+			})
+		}
+		return found
+	}
+	// every yield call must be the atom of a guard
+	guarded := map[*ast.CallExpr]bool{}
+	// a yield call inside a larger condition (`left == 0 || !yield(k, v)`): with yield = false
+	// the condition may still have a definite value, which names the edge taken
+	for _, b := range g.Blocks {
+		if !b.Live || len(b.Succs) != 2 {
+			continue
+		}
+		cond := condOf(info, b)
+		if cond == nil {
+			continue
+		}
+		var ycall *ast.CallExpr
+		ast.Inspect(cond, func(z ast.Node) bool {
+			if call := isYieldCall(z); call != nil {
+				ycall = call
+			}
+			return true
+		})
+		if ycall == nil || isYieldCall(ast.Unparen(c.m.throughLocals(u, cond))) != nil {
+			continue // the plain form is handled below
+		}
+		if be, ok := ast.Unparen(cond).(*ast.UnaryExpr); ok && be.Op == token.NOT && isYieldCall(ast.Unparen(be.X)) != nil {
+			continue
+		}
+		// three-valued evaluation with yield() = false
+		var eval func(e ast.Expr) int // 1 true, 0 false, -1 unknown
+		eval = func(e ast.Expr) int {
+			e = ast.Unparen(e)
+			if isYieldCall(e) == ycall {
+				return 0
+			}
+			switch x := e.(type) {
+			case *ast.UnaryExpr:
+				if x.Op == token.NOT {
+					switch eval(x.X) {
+					case 1:
+						return 0
+					case 0:
+						return 1
+					}
+				}
+			case *ast.BinaryExpr:
+				l, r := eval(x.X), eval(x.Y)
+				switch x.Op {
+				case token.LOR:
+					if l == 1 || r == 1 {
+						return 1
+					}
+					if l == 0 && r == 0 {
+						return 0
+					}
+				case token.LAND:
+					if l == 0 || r == 0 {
+						return 0
+					}
+					if l == 1 && r == 1 {
+						return 1
+					}
+				}
+			}
+			return -1
+		}
+		v := eval(cond)
+		if v == -1 {
+			continue
+		}
+		succ := 0
+		if v == 0 {
+			succ = 1
+		}
+		guarded[ycall] = true
+		key := fmt.Sprintf("%s stop after yield returned false", u.Name)
+		bad := false
+		for rb := range reachable(b.Succs[succ]) {
+			if hasYield(rb) {
+				bad = true
+			}
+		}
+		if bad {
+			c.r.bad("R28", key, c.m.pos(ycall.Pos()), "a yield call is reachable after this yield call returned false", props...)
+		} else {
+			c.r.ok("R28", key, c.m.pos(ycall.Pos()), "with yield = false the enclosing condition is decided and its edge reaches the function exit without another yield call", props...)
+		}
+	}
+	for _, gd := range guardsOf(info, g) {
+		call := isYieldCall(ast.Unparen(c.m.throughLocals(u, gd.atom.e)))
+		if call == nil || gd.atom.val {
+			continue
+		}
+		// edge (b,succ) is taken when yield returned false
+		guarded[call] = true
+		key := fmt.Sprintf("%s stop after yield returned false", u.Name)
+		bad := false
+		for b := range reachable(gd.b.Succs[gd.succ]) {
+			if hasYield(b) {
+				bad = true
+			}
+		}
+		if bad {
+			c.r.bad("R28", key, c.m.pos(call.Pos()), "a yield call is reachable after this yield call returned false", props...)
+		} else {
+			c.r.ok("R28", key, c.m.pos(call.Pos()), "the false outcome reaches the function exit without another yield call", props...)
+		}
+	}
+	for _, b := range g.Blocks {
+		if !b.Live {
+			continue
+		}
+		for _, n := range b.Nodes {
+			ast.Inspect(n, func(x ast.Node) bool {
+				if _, isLit := x.(*ast.FuncLit); isLit {
+					return false
+				}
+				if call := isYieldCall(x); call != nil && !guarded[call] {
+					// an unused result is harmless when nothing can call yield again afterwards
+					// (the last action of the pass)
+					again := false
+					after := false
+					for _, later := range b.Nodes {
+						if later == n {
+							after = true
+							continue
+						}
+						if after {
+							ast.Inspect(later, func(z ast.Node) bool {
+								if isYieldCall(z) != nil {
+									again = true
+								}
+								return true
+							})
+						}
+					}
+					for _, sc := range b.Succs {
+						for rb := range reachable(sc) {
+							if hasYield(rb) {
+								again = true
+							}
+						}
+					}
+					key := fmt.Sprintf("%s yield result unused", u.Name)
+					if again {
+						c.r.bad("R28", key, c.m.pos(call.Pos()), "the result of yield does not decide a branch: the sequence keeps calling back after the consumer stopped", props...)
+					} else {
+						c.r.ok("R28", key, c.m.pos(call.Pos()), "no yield call is reachable after this one: the pass ends whatever the consumer answered", props...)
+					}
+				}
+				if d, ok := x.(*ast.DeferStmt); ok {
+					if isYieldCall(d.Call) != nil {
+						c.r.bad("R28", fmt.Sprintf("%s deferred yield", u.Name), c.m.pos(d.Pos()), "yield is called from a deferred function", props...)
+					}
+				}
+				return true
+			})
+		}
+	}
+}
+
+// yieldVisitor: a literal that calls yield and is handed, as a func-typed argument, to a declared
+// walker that does nothing with that parameter but call it.
+type yieldVisitor struct {
+	lit    *ast.FuncLit
+	unit   *FuncUnit
+	walker *FuncUnit
+	param  *types.Var
+}
+
+// yieldVisitors maps the walker calls in sequence closure u to the visitor they receive.
+func (c *Ctx) yieldVisitors(u *FuncUnit, yv *types.Var) map[*ast.CallExpr]*yieldVisitor {
+	info := c.m.Info
+	out := map[*ast.CallExpr]*yieldVisitor{}
+	ast.Inspect(u.Body, func(n ast.Node) bool {
+		if lit, ok := n.(*ast.FuncLit); ok && ast.Node(lit) != ast.Node(u.Lit) {
+			return false
+		}
+		call, ok := n.(*ast.CallExpr)
+		if !ok {
+			return true
+		}
+		for i, a := range call.Args {
+			lit, ok := ast.Unparen(a).(*ast.FuncLit)
+			if !ok {
+				continue
+			}
+			calls := false
+			ast.Inspect(lit.Body, func(z ast.Node) bool {
+				if cl, ok := z.(*ast.CallExpr); ok && identVar(info, cl.Fun) == yv {
+					calls = true
+				}
+				return true
+			})
+			if !calls {
+				continue
+			}
+			lu := c.m.LitUnit[lit]
+			if lu == nil {
+				continue
+			}
+			w, wcalls := c.visitorSites(lu)
+			if w == nil || len(wcalls) == 0 {
+				continue
+			}
+			var pv *types.Var
+			k := 0
+			for _, f := range w.Decl.Type.Params.List {
+				for _, nm := range f.Names {
+					if k == i {
+						pv, _ = info.Defs[nm].(*types.Var)
+					}
+					k++
+				}
+			}
+			if pv == nil {
+				continue
+			}
+			out[call] = &yieldVisitor{lit: lit, unit: lu, walker: w, param: pv}
+		}
+		return true
+	})
+	return out
+}
+
+// r28Visitor: (1) inside the visitor a false from yield becomes the visitor's own false –
+// `return yield(…)` or `if !yield(…) { return false }`; (2) the walker stops calling its visitor
+// parameter once a call returned false.
+func (c *Ctx) r28Visitor(u *FuncUnit, yv *types.Var, vs *yieldVisitor, props []string) {
+	info := c.m.Info
+	key := fmt.Sprintf("%s visitor hands yield's false to %s", u.Name, vs.walker.Name)
+	okAll, n := true, 0
+	var parents []ast.Node
+	ast.Inspect(vs.lit.Body, func(x ast.Node) bool {
+		if x == nil {
+			parents = parents[:len(parents)-1]
+			return true
+		}
+		parents = append(parents, x)
+		call, ok := x.(*ast.CallExpr)
+		if !ok || identVar(info, call.Fun) != yv {
+			return true
+		}
+		n++
+		up := func(k int) ast.Node {
+			if len(parents)-1-k < 0 {
+				return nil
+			}
+			return parents[len(parents)-1-k]
+		}
+		p1 := up(1)
+		if rs, ok := p1.(*ast.ReturnStmt); ok && len(rs.Results) == 1 {
+			return true
+		}
+		if ue, ok := p1.(*ast.UnaryExpr); ok && ue.Op == token.NOT {
+			if is, ok := up(2).(*ast.IfStmt); ok && ast.Unparen(is.Cond) == ast.Expr(ue) && len(is.Body.List) == 1 {
+				if rs, ok := is.Body.List[0].(*ast.ReturnStmt); ok && len(rs.Results) == 1 {
+					if tv, ok := info.Types[rs.Results[0]]; ok && tv.Value != nil && tv.Value.ExactString() == "false" {
+						return true
+					}
+				}
+			}
+		}
+		okAll = false
+		return true
+	})
+	if okAll && n > 0 {
+		c.r.ok("R28", key, c.m.pos(vs.lit.Pos()), "every yield call in the visitor is returned, or its false makes the visitor return false", props...)
+	} else {
+		c.r.undecided("R28", key, c.m.pos(vs.lit.Pos()), "yield is called inside a closure handed to a walker and its result is neither returned nor turned into `return false`: whether the walk stops once yield returned false is not decided by this rule", props...)
+	}
+	if c.walkerDone == nil {
+		c.walkerDone = map[*FuncUnit]bool{}
+	}
+	if !c.walkerDone[vs.walker] {
+		c.walkerDone[vs.walker] = true
+		c.r28Stop(vs.walker, vs.param, props, nil)
 	}
 }
